@@ -80,6 +80,55 @@ def check_case(ctx, L, case, faults_map=None):
             ctx.count(f"warn:out-of-domain:{obs2.outcome['kind']}")
 
 
+OPT_HELPER = r"""
+import sys, json
+sys.path.insert(0, sys.argv[1])
+from tpmstream.io.binary import Binary
+from tpmstream.spec import all_types
+from tpmstream.spec.structures.constants import TPM_CC
+reg = {t.__name__: t for t in all_types}
+out = []
+for c in json.load(sys.stdin):
+    kw = dict(tpm_type=reg[c["type"]], buffer=bytes.fromhex(c["hex"]))
+    if c["cc"] is not None:
+        kw["command_code"] = TPM_CC(c["cc"])
+    if c["enc"]:
+        kw["parameter_encryption"] = True
+    try:
+        events = list(Binary.marshal(**kw))
+        chunks = list(Binary.unmarshal(events))
+        out.append({"ok": True, "events": len(events), "prims": sum(1 for ch in chunks if ch), "hex": b"".join(chunks).hex()})
+    except Exception as exc:
+        out.append({"ok": False, "error": repr(exc)[:200]})
+print(json.dumps(out))
+"""
+
+
+def optimized_interpreter(ctx, L, cases):
+    """The same round trip in a fresh interpreter started with -O (assert statements compiled away): a library must not
+    depend on its asserts for its behaviour."""
+    import json
+    import subprocess
+    import sys
+
+    from ..runner import HarnessError
+
+    inp = [{"type": c.type, "hex": c.data.hex(), "cc": c.cc, "enc": bool(c.enc)} for c in cases if c.type in ("Command", "Response", "CommandResponseStream") or L.is_prim(c.type) or c.type in L.snap["structs"]]
+    if not inp:
+        return
+    p = subprocess.run([sys.executable, "-O", "-c", OPT_HELPER, O.SRC], input=json.dumps(inp), capture_output=True, text=True, timeout=600)
+    if p.returncode != 0:
+        raise HarnessError(f"python -O helper failed: {p.stderr[-800:]}")
+    res = json.loads(p.stdout.strip().splitlines()[-1])
+    for c, r in zip(inp, res):
+        ctx.case(("-O", c["type"], c["hex"]), True, sample={"interpreter": "python -O", **c} if len(c["hex"]) < 80 else None)
+        ctx.count("python -O round trips")
+        payload = {"type": c["type"], "data": bytes.fromhex(c["hex"]), "cc": c["cc"], "enc": c["enc"], "interpreter": "-O"}
+        if not r["ok"] or r["hex"] != c["hex"]:
+            ctx.problem("C02:optimized-interpreter", f"under `python -O` decoding and re-encoding {c['hex'][:200]} as {c['type']} gives {r}", payload)
+            return
+
+
 def run_shard(ctx):
     L = layout()
 
@@ -102,6 +151,12 @@ def run_shard(ctx):
     from .common import wellformed_campaign as camp
 
     camp(_Ctx(), L, body, 2 if ctx.quick() else 5, 4000 if ctx.quick() else 50000, streams_n=300 if ctx.quick() else 5000)
+    if ctx.shard < 2 or not ctx.quick():
+        from .. import gen
+
+        collected = []
+        ctx.run_given(gen.messages(L), collected.append, 25 if ctx.quick() else 100, name="for-python-O")
+        ctx.run_plain(lambda: optimized_interpreter(ctx, L, collected), "python-O")
 
 
 def finalize(merged):
